@@ -342,7 +342,12 @@ def _multislice(o, lazy, max_batch="auto", rechunk=None):
         waves = _build(o, lazy, max_batch)
         if rechunk is not None and lazy and len(waves.ensemble_shape):
             waves = waves.rechunk(rechunk)
-        return waves.multislice(o.potential, detectors=o.detectors)
+        dets = o.detectors
+        if api == "scan" and dets is None:
+            import abtem
+
+            dets = abtem.FlexibleAnnularDetector()  # the documented default of Probe.scan
+        return waves.multislice(o.potential, detectors=dets)
     if c["builder"] == "probe":
         if api == "scan":
             kw = {} if o.detectors is None else {"detectors": o.detectors}
@@ -425,7 +430,8 @@ def _aslist(o):
     return list(o) if isinstance(o, (list, tuple)) else [o]
 
 
-def _compare(stage, ref, got, what="lazy vs eager", rtol=1e-5, clauses=("values", "shape", "type", "axes-metadata", "metadata")):
+def _compare(stage, ref, got, what="lazy vs eager", rtol=1e-5,
+             clauses=("values", "shape", "type", "axes-metadata", "metadata"), nontrivial=True):
     """Compare two computed results (single object or list). Returns list of Res for the given stage."""
     import numpy as np
 
@@ -485,7 +491,7 @@ def _compare(stage, ref, got, what="lazy vs eager", rtol=1e-5, clauses=("values"
     }
     for cl in clauses:
         ok, det = res[cl]
-        out.append(Res(f"C01/{stage}/{cl}", ok, f"{what}: " + ("; ".join(det) if det else "equal"), nt))
+        out.append(Res(f"C01/{stage}/{cl}", ok, f"{what}: " + ("; ".join(det) if det else "equal"), nt and nontrivial))
     return out
 
 
@@ -551,9 +557,8 @@ def run_case(case):
     if not together:
         return out
 
-    out.append(Res("C01/multislice/lazy-is-lazy", lazy_info["was_lazy"],
-                   f"lazy=True returned in-memory arrays: chunks {lazy_info['chunks']}", True))
-    out += _compare("multislice", eg, lz)
+    # a lazy=True call that silently computed eagerly would make the comparison vacuous: flagged trivial then
+    out += _compare("multislice", eg, lz, nontrivial=lazy_info["was_lazy"])
 
     # ---------------- independence of max_batch / chunking / scheduler ----------------------------------
     mb2 = _other_batch(mb)
@@ -620,8 +625,7 @@ def run_case(case):
     w_e = _build(ob, False)
     ob2 = objs()
     w_lobj = _build(ob2, True, max_batch=mb)
-    out.append(Res("C01/build/lazy-is-lazy", hasattr(w_lobj.array, "chunks"), "lazy build returned numpy", True))
-    out += _compare("build", w_e, _compute(w_lobj, sched))
+    out += _compare("build", w_e, _compute(w_lobj, sched), nontrivial=hasattr(w_lobj.array, "chunks"))
 
     # ---------------- post stage on identical in-memory input waves ------------------------------------------
     import abtem
